@@ -277,7 +277,11 @@ def memberOfJsx : Node → Node
       | .mk .ident ("this" :: _) _ => .mk (.other "ThisExpression") [] []
       | .mk .ident as _ => .mk .ident as []
       | m => m
-    .mk .member [] [o, prop]
+    -- a property that is not an identifier name can only be written `a["b-c"]` (same value)
+    let p := match prop with
+      | .mk .ident (name :: _) _ => if isValidPropIdent name then prop else nComputed (nStr name)
+      | p => p
+    .mk .member [] [o, p]
   | n => n
 
 /-- local rule of `evalOut` (children are already normalised) -/
